@@ -59,6 +59,8 @@ class Ctx:
         print("MACHINERY-ERROR property=%s %s" % (self.prop, text), flush=True)
 
     def spec_drift(self, text):
+        if getattr(self, "quiet", False):
+            return
         if len(self.drift) < 50:
             self.drift.append(text)
         print("SPEC-DRIFT: property=%s %s" % (self.prop, text), flush=True)
